@@ -289,12 +289,26 @@ Definition lone_field (s : shape) : option field := match s with STuple [fl] => 
 Definition variant_rename_all (raf : option rule) (v : variant) : option rule :=
   match v_rename_all v with Some r => Some r | None => if is_named (v_shape v) then raf else None end.
 
+(* a variant with `type` / `as` never asks for the text of its own fields at run time (the tokens of the field types are
+   generated but not used): a panic in there does not happen; what remains of the shape is whether it has a flattened form *)
+Definition has_flat_form (tag : option (str * str)) (s : shape) : bool :=
+  match s with
+  | SNamed fs => match fs, tag with [], None => false | _, _ => true end
+  | _ => false
+  end.
+Definition shape_lazy (o : outcome derived) (flat : bool) : outcome derived :=
+  match o with
+  | Panic _ => Ok (prim "never", if flat then Some (prim "never") else None)
+  | _ => o
+  end.
+
 (* types/enum.rs: format_variant *)
 Definition variant_gen (args : list rty) (a : cattrs) (tg : tagging) (raf : option rule) (v : variant)
   : outcome tsty :=
   let name := variant_name (c_rename_all a) v in
   let tag := match tg, is_named (v_shape v) && negb (v_untagged v) with Internal t, true => Some (t, name) | _, _ => None end in
-  bind (shape_gen args (variant_rename_all raf v) NotOptional tag (v_shape v)) (fun vt =>
+  let sg := shape_gen args (variant_rename_all raf v) NotOptional tag (v_shape v) in
+  bind (match v_as v, v_type v with None, None => sg | _, _ => shape_lazy sg (has_flat_form tag (v_shape v)) end) (fun vt =>
   bind (match v_as v, v_type v with
         | Some u, _ => name_of (rsubst args u)
         | None, Some text => Ok (TRaw text)
